@@ -789,6 +789,19 @@ def info_case(case):
         tok = shared_tokeniser(c, idx)
         if piece is not None:
             tokens = tok.tokenise(piece_sequences(piece))
+        elif stream and isinstance(stream[0], int):
+            # an arbitrary vocabulary stream, given by positions in the configuration's own dictionary (grouped by kind)
+            import random as _r
+            rr = _r.Random(stream[0])
+            keys = list(tok.dictionary)
+            groups = {}
+            for k_ in keys:
+                groups.setdefault(k_.split("_")[0], []).append(k_)
+            kinds = sorted(groups)
+            tokens = []
+            for _ in range(stream[1]):
+                kind = rr.choice(kinds + ["rst", "rst", "bar", "trk"] if "trk" in groups else kinds + ["rst", "bar"])
+                tokens.append(rr.choice(groups.get(kind) or keys))
         else:
             tokens = [render(tok, a) for a in stream]
             if any(t is None for t in tokens):
@@ -868,6 +881,14 @@ def run_c19(ctx, g):
         for k in range(20000 if ctx.thorough else 2500):
             c = random_cfg(rng)
             cases.append((len(cases), c, [], random_piece(rng, c)))
+        # arbitrary streams over the complete vocabulary of random configurations, incl. odd resolutions (bar capacities
+        # that are not whole ticks: 5/8 at 3 ticks per quarter is 7.5)
+        for k in range(12000 if ctx.thorough else 2000):
+            c = random_cfg(rng)
+            c.update(pitHi=min(c["pitHi"], c["pitLo"] + 4), nbins=min(c["nbins"], 3), tracks=min(c["tracks"], 2))
+            if k % 3 == 0:
+                c.update(ppqn=rng.choice([3, 5, 9]), steps=[1, 3], values=[1, 3, 6])
+            cases.append((len(cases), c, [rng.randrange(10 ** 6), rng.randint(2, 12)], None))
     obs = pmap(info_case, cases, chunk=200)
     for i, o in enumerate(obs):
         o["id"] = i
